@@ -233,6 +233,33 @@ func propPriv(args []string) string {
 			return fmt.Sprintf("%q: writes into %s but no write privilege on database %q in %v", text, sel.Target.Measurement.String(), sel.Target.Measurement.Database, ps)
 		}
 	}
+	if sel != nil {
+		// the statement is edited after the first question (callers fill in default databases before they ask:
+		// the method's own comment tells them to normalise first): every measurement at every depth and the
+		// target get a database; the answer must be that of a twin edited in the same way that was never asked
+		// before (round-3 seeded change C19-3 memoised the list on the statement)
+		edit := func(st influxql.Statement) {
+			influxql.WalkFunc(st, func(n influxql.Node) {
+				if m, ok := n.(*influxql.Measurement); ok {
+					if m.Database == "" {
+						m.Database = "filled_in"
+					} else {
+						m.Database = m.Database + "_moved"
+					}
+				}
+			})
+		}
+		twin, terr := privStatement(text)
+		if terr == nil {
+			edit(st)
+			edit(twin)
+			a, aerr := st.RequiredPrivileges()
+			b, berr := twin.RequiredPrivileges()
+			if (aerr == nil) != (berr == nil) || fmt.Sprint(a) != fmt.Sprint(b) {
+				return fmt.Sprintf("%q, databases edited after the first call: a statement asked before the edit answers %v, one never asked %v", text, a, b)
+			}
+		}
+	}
 	if isAdminKind(st) {
 		for _, p := range ps {
 			if !p.Admin {
